@@ -62,7 +62,7 @@ def repo_state():
     return {'repo': repo, 'head': head, 'dirty': dirty}
 
 
-def run_workers(prop, cases, jobs, tmpdir, shard_timeout):
+def run_workers(prop, cases, jobs, tmpdir, shard_timeout, tier='quick'):
     n = max(1, min(jobs, (len(cases) + 3) // 4))
     shards = [[] for _ in range(n)]
     for i, c in enumerate(cases):
@@ -73,6 +73,7 @@ def run_workers(prop, cases, jobs, tmpdir, shard_timeout):
                 'MPLBACKEND': 'Agg', 'HDF5_USE_FILE_LOCKING': 'FALSE'})
     env['PYTHONPATH'] = VERIF + os.pathsep + env.get('PYTHONPATH', '')
     env['VERIF_TMP'] = tmpdir
+    env['VERIF_TIER_EFF'] = tier
     state = []
     for k, sh in enumerate(shards):
         sf = os.path.join(tmpdir, f'shard{k}.json')
@@ -185,7 +186,7 @@ def main():
     tmpdir = tempfile.mkdtemp(prefix=f'verif_{prop}_', dir=base)
     shard_timeout = float(os.environ.get('VERIF_SHARD_TIMEOUT', '1500' if tier == 'quick' else '14000'))
     try:
-        results, begun, crashes = run_workers(prop, cases, a.jobs, tmpdir, shard_timeout)
+        results, begun, crashes = run_workers(prop, cases, a.jobs, tmpdir, shard_timeout, tier)
     finally:
         shutil.rmtree(tmpdir, ignore_errors=True)
 
